@@ -158,6 +158,11 @@ fn quote_string(s: &str) -> String {
     } else {
         '"'
     };
+    if s.starts_with(quote) || s.ends_with(quote) {
+        // no odd run of either quote can delimit this content: escape the double quotes instead
+        // (`s` is already escaped, so every backslash in it is doubled and `\"` is unambiguous)
+        return format!("\"{}\"", s.replace('"', "\\\""));
+    }
 
     // When string contains both single and double quotes find the longest
     // sequence of consecutive quotes, and then use the next highest odd number
